@@ -119,6 +119,20 @@ def well_posed(ctx):
         for (bi, ai) in fam:
             ctx.prove("direction-carries-the-family-count", ctx.eq(mesh.blocks[bi].axes[ai].count, want), block=bi, axis=ai)
             ctx.prove("all-four-wires-defined", all(w.grading.is_defined for w in mesh.blocks[bi].axes[ai].wires))
+    # grading the same mesh once more (a second write) ends the same way
+    first = outcome(ctx, mesh)
+    printed = [[ax.wires.count for ax in b.axes] for b in mesh.blocks]
+    _, exc2 = ctx.call(mesh.grade)
+    ctx.prove("grading-again-succeeds", exc2 is None, exc=repr(exc2)[:200])
+    if exc2 is None:
+        again = outcome(ctx, mesh)
+        ctx.prove("grading-again-gives-the-same-counts", And([ctx.eq(a, b) for x, y in zip(first, again) for a, b in zip(x, y)]))
+        for b in mesh.blocks:
+            with ctx.rendering() as R:
+                desc = b.description
+            shown = desc.split("(")[2].split(")")[0].split()
+            ctx.prove("hex-entry-prints-the-family-counts-after-grading-again",
+                      len(shown) == 3 and And([ctx.eq(R.value(tok), ax.count) for tok, ax in zip(shown, b.axes)]), block=b.index)
 
 
 @proof("C02", "propagation/under-specified", cases=[(n, o) for n in UNDER for o in ORDERS], level="S", samples=4, timeout=60,
@@ -151,7 +165,7 @@ def under_specified(ctx):
 
 
 # ------------------------------------------------------------------------------ Axis.copy_grading contract
-@proof("C02", "Axis.copy_grading/contract", cases=[(al, st) for al in ("aligned", "anti-aligned") for st in ("neighbour-chopped", "neighbour-undefined", "self-defined", "two-sections")],
+@proof("C02", "Axis.copy_grading/contract", cases=[(al, st) for al in ("aligned", "anti-aligned") for st in ("neighbour-chopped", "neighbour-undefined", "self-defined", "two-sections", "two-equal-sections")],
        level="S", functions=[AX + "copy_grading", AX + "is_aligned", AX + "is_defined", "classy_blocks.grading.chop:Chop.copy_preserving",
                              "classy_blocks.grading.chop:Chop.invert"],
        note="two boxes sharing a face; the second one numbered so that the shared direction runs the same / the opposite way")
@@ -167,6 +181,9 @@ def copy_grading_contract(ctx):
     ly, _ = A.local_axis_of_global(0, 1)
     if state in ("neighbour-chopped", "self-defined"):
         ops[0].chop(ly, count=n)
+    if state == "two-equal-sections":   # the two halves of a direction chopped the same way are two chops, not one
+        ops[0].chop(ly, count=n, length_ratio=0.5)
+        ops[0].chop(ly, count=n, length_ratio=0.5)
     if state == "two-sections":
         ops[0].chop(ly, count=n, length_ratio=0.25)
         ops[0].chop(ly, count=m, length_ratio=0.75, total_expansion=ctx.real("E", lo=0.2, hi=5))
@@ -194,7 +211,7 @@ def copy_grading_contract(ctx):
     else:
         ctx.prove("copied-returns-true", r is True)
         ctx.prove("now-defined-with-chops", tgt.is_defined and len(tgt.wires.chops) == len(src.wires.chops) > 0)
-        total = n if state == "neighbour-chopped" else n + m
+        total = {"neighbour-chopped": n, "two-sections": n + m, "two-equal-sections": n + n}[state]
         ctx.prove("every-wire-has-the-neighbours-count", And([ctx.eq(w.grading.count, total) for w in tgt.wires]))
         if state == "two-sections":
             got = [c.count for c in tgt.wires.chops]
@@ -207,3 +224,88 @@ def copy_grading_contract(ctx):
         spec2 = [[list(s) for s in w.grading.specification] for w in tgt.wires]
         r2 = tgt.copy_grading()
         ctx.prove("idempotent-once-defined", r2 is False and len(spec2) == 4)
+
+
+# ------------------------------------------------------------------------------ any internal iteration order: the same file
+def _tapered_point(i, j, k):
+    # a tapered lattice: the four vertical edges of every block have different lengths
+    return [float(i), float(j), k * (1.0 + 0.17 * i + 0.29 * j + 0.11 * i * j)]
+
+
+def _tapered_block(i, j, rot=0):
+    pts = np.array([_tapered_point(i + c[0], j + c[1], c[2]) for c in A.COORDS], dtype=float)
+    return A.make_operation(pts[list(A.ROT[rot])])
+
+
+AROUND = {
+    "four-around-an-edge/one-upside-down": ([(0, 0), (1, 0), (1, 1), (0, 1)], "flip-second"),
+    "four-around-an-edge/two-upside-down": ([(0, 0), (1, 0), (1, 1), (0, 1)], "flip-second-and-fourth"),
+    "four-around-an-edge/all-alike": ([(0, 0), (1, 0), (1, 1), (0, 1)], "none"),
+    "three-in-a-row/middle-upside-down": ([(0, 0), (1, 0), (2, 0)], "flip-second"),
+}
+
+
+@proof("C02", "iteration-order/same-file-whatever-the-set-order", cases=[(n, p) for n in AROUND for p in ("start_size", "end_size", "c2c_expansion")], level="S", samples=2,
+       timeout=120, functions=[AX + "copy_grading", "classy_blocks.items.wires.manager:WirePropagateManager.copy_neighbours",
+                               "classy_blocks.items.wires.manager:WirePropagateManager.propagate_grading", "classy_blocks.grading.chop:Chop.copy_preserving",
+                               "classy_blocks.grading.chop:Chop.invert", BL + "propagate_gradings"],
+       note="tapered blocks (unequal parallel edges) around a common edge / in a row, one block chopped by cell size with a preserved "
+            "quantity, some blocks numbered upside-down; the neighbour and coincident-wire sets are iterated in insertion order, in "
+            "reversed order and in 10 seeded pseudo-random orders (A8: schedules, not all orders): every order must write the same blocks section")
+def any_iteration_order(ctx):
+    name, preserve = ctx.case
+    cells, flips = AROUND[name]
+    upside_down = [i for i in range(24) if A.local_axis_of_global(i, 2) == (2, -1)][0]
+    texts = []
+    modes = [("insertion", False, None), ("reversed", True, None)] + [(f"shuffle-{k}", False, k) for k in range(10)]
+    if not ctx.symbolic:
+        modes = [("native-set-order", False, None)] * 3    # the plain package: whatever order the addresses give
+    for label, rev, seed in modes:
+        shims.OrderedSet.ITER_REVERSED[0] = rev
+        shims.OrderedSet.ITER_SEED[0] = seed
+        shims.OrderedSet.CREATED[0] = 0
+        try:
+            mesh = Mesh()
+            for k, (i, j) in enumerate(cells):
+                flip = (flips == "flip-second" and k == 1) or (flips == "flip-second-and-fourth" and k in (1, 3))
+                rot = upside_down if flip else 0
+                op = _tapered_block(i, j, rot)
+                for g in (0, 1):
+                    op.chop(A.local_axis_of_global(rot, g)[0], count=2 + g)
+                if k == 0:
+                    kw = {"start_size": 0.05, "c2c_expansion": 1.2} if preserve != "end_size" else {"end_size": 0.05, "c2c_expansion": 0.85}
+                    op.chop(2, preserve=preserve, **kw)
+                mesh.add(op)
+            fd, path = tempfile.mkstemp(suffix=".bmd")
+            os.close(fd)
+            try:
+                _, exc = ctx.call(mesh.write, path)
+                text = open(path).read() if exc is None else None
+            finally:
+                if os.path.exists(path):
+                    os.remove(path)
+        finally:
+            shims.OrderedSet.ITER_REVERSED[0] = False
+            shims.OrderedSet.ITER_SEED[0] = None
+        ctx.prove("well-posed-mesh-is-written-in-every-order", exc is None, order=label, exc=repr(exc)[:200])
+        if text is not None:
+            texts.append((label, text.split("blocks")[1].split("edges")[0]))
+    for label, t in texts[1:]:
+        ctx.prove("same-blocks-section-in-every-iteration-order", _same_tokens(t, texts[0][1]), order=label, first=texts[0][1][:900], this=t[:900])
+
+
+def _same_tokens(a, b, rtol=1e-9):
+    """the same entries; numbers compared as reals (A1: the last digits of a float depend on the route of the calculation)"""
+    ta, tb = a.split(), b.split()
+    if len(ta) != len(tb):
+        return False
+    for x, y in zip(ta, tb):
+        if x == y:
+            continue
+        try:
+            fx, fy = float(x), float(y)
+        except ValueError:
+            return False
+        if abs(fx - fy) > rtol * max(abs(fx), abs(fy)):
+            return False
+    return True
